@@ -66,11 +66,14 @@ func (mbp *multipartBodyProcessor) ProcessRequest(reader io.Reader, v plugintype
 					v.MultipartStrictError().(*collections.Single).Set("1")
 					return err
 				}
-				defer temp.Close()
 				// Register the temporary file before copying into it: if the copy fails, Transaction.Close
 				// still knows about the file and removes it instead of leaving it behind.
 				filesTmpNamesCol.Add("", temp.Name())
 				sz, err := io.Copy(temp, p)
+				// a failing close means the upload may not have reached the disk: treat it like a failed write
+				if cerr := temp.Close(); cerr != nil && err == nil {
+					err = cerr
+				}
 				if err != nil {
 					if !errors.Is(err, io.ErrUnexpectedEOF) {
 						v.MultipartStrictError().(*collections.Single).Set("1")
